@@ -182,6 +182,30 @@ func sepRule(c *Ctx, r *Report, rule string, sdlForm bool) {
 		nEm++
 		sepClosureEmitter(c, r, rule, pr, fn, modes, nEm)
 	}
+	// ---- member emitters written as a loop of a function the value writer hands its form to (writeMap with the
+	// loop body in the loop instead of a function literal)
+	for _, fn := range c.allFns {
+		if fn.Parent() != nil || fn == wr.fn || !c.inPkg(fn) {
+			continue
+		}
+		pr := rolesThrough(c, wr, fn)
+		if pr == nil {
+			continue
+		}
+		fl := loopsOf(fn)
+		for _, ci := range callsIn(fn) {
+			call, ok := ci.(*ssa.Call)
+			if !ok || call.Call.StaticCallee() != wr.fn {
+				continue
+			}
+			l := innermostLoop(fl, call.Block())
+			if l == nil {
+				continue
+			}
+			nEm++
+			sepListEmitterIn(c, r, rule, pr, wr.fn, l, call, modes, nEm, true)
+		}
+	}
 	r.floor(rule, "emitters of item sequences in the value writer", nEm, 2)
 }
 
